@@ -213,8 +213,12 @@ def preloaded (es : List Ev) : List String :=
 
 /-- clause `preload`: every file epilog() returned is handed to the master's preload(), in order, exactly once - a file
     that fails to load does not stop the others -/
+def beforeStart (es : List Ev) : List Ev := es.takeWhile (fun e => e != .start)
+
 def clausePreload (x : Expect) (es : List Ev) : List String :=
-  if preloaded es == x.preloads then [] else [s!"preload loaded={preloaded es} expected={x.preloads}"]
+  -- preload_objects() runs before backend() is entered (`start`)
+  if preloaded (beforeStart es) == x.preloads then []
+  else [s!"preload loaded={preloaded (beforeStart es)} expected={x.preloads}"]
 
 def judgeEv (x : Expect) (es : List Ev) : List String :=
   if !(clauseCrash es).isEmpty then clauseCrash es else
